@@ -567,3 +567,33 @@ Proof.
     + injection H as H1 H2 H3; subst om p' c'. exists head, tail, (next :: rest'). repeat split; auto.
   - injection H as H1 H2 H3; subst om p' c'. exists head, tail, (next :: rest'). repeat split; auto.
 Qed.
+
+
+(* ---------- generate_domains: modules are only merged across DIRECTLY neighbouring genes with hits ---------- *)
+(* a gene without any hit resets the chain: whatever came before it, the genes after it are processed as if they
+   were the first ones (their module lists do not depend on the genes before the gap) *)
+Lemma gd_step_gap stale st : gd_step stale st (mkGI [] false 0 0) =
+  match st with Ok (acc, _) => Ok (acc ++ [None], None) | Err k => Err k end.
+Proof. destruct st as [[acc prev]|k]; reflexivity. Qed.
+
+(* the seeded variant (a gene whose hits form no module does not become `prev`) merges two genes that are not
+   neighbours: KS AT | docking domain only | KR ACP *)
+Lemma generate_stale_prev_differs : exists genes,
+  generate_modules genes <> generate_modules_gen true genes /\
+  match generate_modules genes with
+  | Ok [Some [m1]; Some []; Some [m3]] => map cid (m_comps m1) = [0; 1] /\ map cid (m_comps m3) = [3; 4]
+  | _ => False
+  end.
+Proof.
+  exists [mkGI [mkComp 41 [] 0 0; mkComp 33 [] 1 100] false 1 0; mkGI [mkComp 30 [] 2 0] false 1 0;
+          mkGI [mkComp 40 [] 3 0; mkComp 1 [] 4 100] false 1 0].
+  split; [vm_compute; discriminate|vm_compute; split; reflexivity].
+Qed.
+
+(* a single gene: its own modules, minus the single-component ones *)
+Lemma generate_single g : (nonempty (g_doms g) || g_motifs g) = true ->
+  generate_modules [g] = do ms <- build_modules_for_cds (g_doms g); Ok [Some (filter (fun m => 1 <? zlen (m_comps m)) ms)].
+Proof.
+  intros H. unfold generate_modules, generate_modules_gen. cbn [fold_left gd_step bind]. rewrite H. cbn [negb].
+  destruct (build_modules_for_cds (g_doms g)) as [ms|k]; [|reflexivity]. reflexivity.
+Qed.
